@@ -416,10 +416,9 @@ func (c *ServerChannel) FinishSession(ctx context.Context) error {
 
 	c.setState(SessionStateFinished)
 
-	if err == nil {
-		if err = c.transport.Close(); err != nil {
-			err = fmt.Errorf("closing the transport failed: %w", err)
-		}
+	// The session is over, also when the peer could not be told: the connection is not left behind
+	if closeErr := c.transport.Close(); closeErr != nil && err == nil {
+		err = fmt.Errorf("closing the transport failed: %w", closeErr)
 	}
 
 	return err
@@ -442,10 +441,9 @@ func (c *ServerChannel) FailSession(ctx context.Context, reason *Reason) error {
 
 	c.setState(SessionStateFailed)
 
-	if err == nil {
-		if err = c.transport.Close(); err != nil {
-			err = fmt.Errorf("closing the transport failed: %w", err)
-		}
+	// The session is over, also when the peer could not be told: the connection is not left behind
+	if closeErr := c.transport.Close(); closeErr != nil && err == nil {
+		err = fmt.Errorf("closing the transport failed: %w", closeErr)
 	}
 
 	return err
